@@ -353,4 +353,50 @@ def memIsReal (p : Option Bytes) : Option Bool :=
           | none => none
           | some i => some (i == p.length && gr)
 
+/-! ### `esl_mem_IsReal` after the proposed repair `C05-mem-isreal-garbage.patch` (executable only; selected by the regenerated
+constant `MemConsts.isRealStrict`, so that the tie follows the working tree when the repair lands; `memIsReal_spec` is about the
+code as it is today) -/
+
+/-- the middle loop with the two added branches: `+`/`-` directly after the `e`/`E`, and `else return FALSE` -/
+def realLoopS (p : Bytes) (i : Nat) (gd ge gr : Bool) : Option (Option (Nat × Bool)) :=
+  if i < p.length then
+    match p[i]? with
+    | none => none
+    | some c =>
+      if isdigitB c then realLoopS p (i + 1) gd ge true
+      else if c = 46 then
+        if gd then some none else if ge then some none else realLoopS p (i + 1) true ge gr
+      else if c = 101 ∨ c = 69 then
+        if ge then some none else realLoopS p (i + 1) gd true gr
+      else if isspaceB c then some (some (i, gr))
+      else if (c = 45 ∨ c = 43) ∧ ge = true then
+        -- `p[-1] == 'e' || p[-1] == 'E'` (bounds-checked; `gotexp` implies `i ≥ 1`)
+        if i = 0 then none else
+        match p[i - 1]? with
+        | none => none
+        | some d => if d = 101 ∨ d = 69 then realLoopS p (i + 1) gd ge gr else some none
+      else some none
+  else some (some (i, gr))
+termination_by p.length - i
+
+def memIsRealS (p : Option Bytes) : Option Bool :=
+  match p with
+  | none => some false
+  | some p =>
+    if p.length = 0 then some false else
+    match wsLoop p 0 with
+    | none => none
+    | some i =>
+      match (if i < p.length then (p[i]?).map (fun c => if c = 45 ∨ c = 43 then i + 1 else i) else some i) with
+      | none => none
+      | some i =>
+        match realLoopS p i false false false with
+        | none => none
+        | some none => some false
+        | some (some (i, gr)) =>
+          match wsLoop p i with
+          | none => none
+          | some i => some (i == p.length && gr)
+
+
 end EaselModel.Buffer.Mem
